@@ -75,10 +75,17 @@ func genC26(t *rapid.T) c26Case {
 	return c
 }
 
+// c26Lead: first characters of generated names; they include the characters of the directory's own path
+// ("/dir") and of "." and "..", so that name handling that confuses prefixes with character sets shows.
+const c26Lead = "dir.DIR-_ax0/"
+
 func c26Names(lens []int) []string {
 	out := make([]string, len(lens))
 	for i, l := range lens {
 		base := fmt.Sprintf("%d", i)
+		if lead := c26Lead[i%len(c26Lead)]; lead != '/' && l > len(base)+1 {
+			base = string(lead) + base
+		}
 		if l < len(base) {
 			// very short names: use distinct single characters / short codes where possible
 			base = string(rune('A' + i%26))
